@@ -3,7 +3,7 @@
 E2 + hook H1.  Nesting shapes = compositions of frame kinds (h/h_vmerr.c: vm_kinds[]); for every shape P and every
 instruction boundary k = 1..N(P) the shape is re-run with a catchable error (second pass: a thrown value) raised
 at dispatch k, once uncaught to a driver-style entry and once under a top-level catch (catch is also a frame kind, so
-every placement of a catch inside the nesting is a shape of its own).  A third part puts 15 genuine error sites at
+every placement of a catch inside the nesting is a shape of its own).  A third part puts 16 genuine error sites at
 the leaf of every shape.  Oracles: register snapshot at the driver entry and at every catch point that completes,
 the value every catch yields, and a fixed probe evaluation compared with a fresh driver."""
 import json, os
@@ -27,10 +27,10 @@ RULE = ("nesting shapes = all compositions up to depth D of the frame kinds K (3
         "container, add_action verb via command() (by name, funptr with carry-over args), catch_tell via tell_object, id() via present, "
         "master applies valid_read/object_name(safe_apply)/creator_file/valid_object/valid_seteuid/valid_bind/valid_override(compile time) "
         "made by efuns); element = (shape P, uncaught | under a top-level catch, k) for EVERY k = 1..N(P) (N measured in a fault-free "
-        "run): the hook raises error(\"*verif fault k\") [pass 2: throw(({1,\"t\"}))] at dispatch k; part 'sites': 15 genuine error sites "
+        "run): the hook raises error(\"*verif fault k\") [pass 2: throw(({1,\"t\"}))] at dispatch k; part 'sites': 16 genuine error sites "
         "(error(), throw(), division by zero, index out of bounds, bad operand, call_other on 0, efun bad argument, sprintf error, "
         "index error inside foreach, too deep recursion, eval cost, stack overflow, load of a missing / non-compiling file, "
-        "destruct(this_object()) then error) as the leaf of every shape; one process per element")
+        "destruct(this_object()) then error, error between a varargs spread and its call) as the leaf of every shape; one process per element")
 
 ASSUME = ["driver-style entry = save_context/setjmp/restore_context/pop_context around apply(), as backend() and call_out() do",
           "num_objects_this_thread is not compared for the 32 shapes whose fault-free run already changes it (clone_object() inside a "
